@@ -79,6 +79,30 @@ Definition v1_cur (old : v1info) (fl : flags) (date : Z) : v1info :=
   let cur_c := if f_pin_date fl then v1_cal_list old else v1_cal_of date in
   if is_cal_gt (v1_cal_list old) cur_c then old else v1_set_cal old cur_c.
 
+(* The body of v1_incr is a chain of let-bound records that refer to each other many times; the kernel
+   compares such terms by expanding them, so the unfolding is done exactly ONCE, here (the proof term is
+   eq_refl; exact_no_check only skips the redundant pre-check by the tactic engine, Qed checks it), and
+   v1_incr is opaque from here on. *)
+Lemma v1_incr_eq0 old_version raw fl date :
+  v1_incr old_version raw fl date =
+  match v1_parse_version_info old_version raw with
+  | PErr => INone
+  | PValueErr | PCrash => ICrash
+  | POk old =>
+    match next_id (w_bid (v1_cur old fl date)) with
+    | None => ICrash
+    | Some b =>
+      if f_tag_num fl then ICrash else
+      match v1_format_version (v1_step fl (v1_cur old fl date) b) raw with
+      | None => ICrash
+      | Some s => if eqb_str s old_version then INone else INew s
+      end
+    end
+  end.
+Proof. exact_no_check (eq_refl (v1_incr old_version raw fl date)). Qed.
+
+Local Opaque v1_incr.
+
 Lemma v1_incr_eq old_version raw fl date old :
   v1_parse_version_info old_version raw = POk old ->
   v1_incr old_version raw fl date =
@@ -91,7 +115,7 @@ Lemma v1_incr_eq old_version raw fl date old :
       | Some s => if eqb_str s old_version then INone else INew s
       end
   end.
-Proof. intros H. unfold v1_incr. rewrite H. reflexivity. Qed.
+Proof. intros H. rewrite v1_incr_eq0, H. reflexivity. Qed.
 
 (* the calendar step touches the calendar fields only *)
 Lemma set_cal_rest v c :
@@ -117,9 +141,8 @@ Lemma step_fields fl ft cur b : f_tag fl = option_map ST.ltext ft ->
   w_year (v1_step fl cur b) = w_year cur /\ w_month (v1_step fl cur b) = w_month cur /\ w_bid (v1_step fl cur b) = b
   /\ w_tag (v1_step fl cur b) = match ft with Some T => ST.ltext T | None => w_tag cur end.
 Proof.
-  destruct fl as [fm fi fp ftg ftn fpi fpd]. cbn [f_tag]. intros ->. unfold v1_step.
-  cbn [f_major f_minor f_patch f_tag].
-  destruct fm, fi, fp; destruct ft as [[[]|]|]; cbn [option_map ST.ltext s_final]; repeat split; reflexivity.
+  destruct fl as [fm fi fp ftg ftn fpi fpd]. cbn [f_tag]. intros ->.
+  destruct fm, fi, fp; destruct ft as [[[]|]|]; repeat split; reflexivity.
 Qed.
 
 (* ================================================================== (A) {semver} *)
@@ -178,11 +201,11 @@ Lemma semver_step_render fl cur bid a b c :
   v1_format_version (v1_step fl cur bid) P_semver = Some (dotted (sv1_next fl a b c)).
 Proof.
   intros Ht Hf Ha Hb Hc. destruct fl as [fm fi fp ftg ftn fpi fpd]. cbn [f_tag] in Ht. subst ftg.
-  unfold v1_step, sv1_next. cbn [f_major f_minor f_patch f_tag].
-  destruct fm, fi, fp;
-    (rewrite semver_render_raw; [|cbn [w_tag]; rewrite Hf; reflexivity]);
-    cbn [w_major w_minor w_patch w_bid w_tag]; rewrite ?Ha, ?Hb, ?Hc; unfold zdec;
-    rewrite ?to_N_succ, ?N2Z.id; cbn [Z.to_N]; rewrite app_nil_r; reflexivity.
+  destruct cur as [y q m d j iw uw ma mi pa bd tg]. cbn [w_tag w_major w_minor w_patch] in Hf, Ha, Hb, Hc. subst tg ma mi pa.
+  destruct fm, fi, fp; (rewrite semver_render_raw; [|reflexivity]);
+    cbv beta iota zeta delta [v1_step sv1_next f_major f_minor f_patch f_tag w_year w_quarter w_month w_dom w_doy
+      w_iso_week w_us_week w_major w_minor w_patch w_bid w_tag];
+    unfold zdec; rewrite ?to_N_succ, ?N2Z.id, app_nil_r; reflexivity.
 Qed.
 
 Lemma ne3 (a b c : N) : [a; b; c] <> [].
@@ -199,7 +222,8 @@ Theorem v1_semver_incr : forall date fl a b c, SE.only_part_flags fl ->
   if part_flag fl then INew (dotted (sv1_next fl a b c)) else INone.
 Proof.
   intros date fl a b c (Ht & Htn & Hpd).
-  rewrite (v1_incr_eq _ _ fl date _ (v1_semver_parse_exact a b c)).
+  pose proof (v1_incr_eq _ _ fl date _ (v1_semver_parse_exact a b c)) as E.
+  rewrite <- (dotted_text a b c) in E. rewrite E. clear E.
   set (old := mkv1 None None None None None None None (Z.of_N a) (Z.of_N b) (Z.of_N c) [48;48;48;49] s_final).
   destruct (v1_cur_rest old fl date) as (E1 & E2 & E3 & E4 & E5).
   rewrite E4. change (w_bid old) with [48;48;48;49]. rewrite next_id_0001, Htn.
@@ -222,8 +246,6 @@ Proof.
   rewrite (dotted_text a' b' c'), (v1_semver_parse_exact a' b' c'), <- (dotted_text a' b' c').
   rewrite (ver_le_dotted [a'; b'; c'] [a; b; c] (ne3 _ _ _) (ne3 _ _ _) eq_refl), HG. reflexivity.
 Qed.
-
-Local Opaque v1_incr.
 
 (* the command, for every combination of the part flags with at least one of them *)
 Theorem v1_semver_test_cmd : forall today fl a b c d, SE.only_part_flags fl -> part_flag fl = true ->
@@ -308,3 +330,457 @@ Proof.
   unfold incr_dispatch. rewrite v1part_semver.
   destruct d as [z|]; cbn [option_map]; rewrite (v1_semver_incr _ fl a b c Hfl), Hp; reflexivity.
 Qed.
+
+(* ================================================================== (B) {pycalver} *)
+(* tag of a version: None = final (no suffix), Some p = one of -alpha -beta -rc -post -dev
+   (ST.ltext gives the tag names; they are exactly the tags of the legacy regex and, with final,
+   exactly the values --tag accepts: Proofs/SemverTagE2E.v ltext_valid, valid_is_ltext) *)
+Notation vtag := (option ST.ptag) (only parsing).
+
+(* v<year><month, two digits>.<build>[-<tag>] : the text of Proofs/CalverTagE2E.v *)
+Definition pyc (y m : N) (bid : list N) (T : vtag) : list N := CT.cvt y m bid (CT.of_flag T).
+
+Lemma pyc_text y m bid T :
+  pyc y m bid T = [118] ++ dec y ++ pad 2 m ++ [46] ++ bid ++ match T with Some _ => [45] ++ ST.ltext T | None => [] end.
+Proof. unfold pyc. rewrite CT.cvt_eq. destruct T as [[]|]; reflexivity. Qed.
+
+Example pyc_samples :
+  pyc 2020 1 [48;48;52;50] (Some ST.Pb) = [118;50;48;50;48;48;49;46;48;48;52;50;45;98;101;116;97]     (* v202001.0042-beta *)
+  /\ pyc 2017 12 [48;48;51;51] None = [118;50;48;49;55;49;50;46;48;48;51;51].                          (* v201712.0033 *)
+Proof. split; reflexivity. Qed.
+
+(* ------------------------------------------------------------------ (B1) reading *)
+Definition pyc_info (y m : Z) (bid : list N) (T : vtag) : v1info :=
+  mkv1 (Some y) (Some (quarter_from_month m)) (Some m) None None None None 0 0 0 bid (ST.ltext T).
+
+Lemma ltext_in T : In (ST.ltext T) (v1_tags ++ [s_final]).
+Proof. destruct T as [[]|]; cbn [ST.ltext v1_tags app In]; tauto. Qed.
+
+Theorem pyc_parse : forall y m bid T,
+  1000 <= y <= 9999 -> 1 <= m <= 12 -> all_digits bid = true -> (4 <= length bid)%nat ->
+  v1_parse_version_info (pyc y m bid T) P_pycalver = POk (pyc_info (Z.of_N y) (Z.of_N m) bid T).
+Proof.
+  intros y m bid T Hy Hm Hd Hl. rewrite pyc_text. destruct T as [p|].
+  - exact (v1_pycalver_parse_exact y m bid (Some (ST.ltext (Some p))) Hy Hm Hd Hl (ltext_in (Some p))).
+  - exact (v1_pycalver_parse_exact y m bid None Hy Hm Hd Hl I).
+Qed.
+
+(* ------------------------------------------------------------------ (B2) rendering *)
+Lemma has_key_ltext T : has_key (ST.ltext T) PEP440_TAG_BY_TAG = true.
+Proof. destruct T as [[]|]; reflexivity. Qed.
+
+Theorem pyc_render : forall v y m T, w_year v = Some y -> w_month v = Some m -> w_tag v = ST.ltext T ->
+  v1_format_version v P_pycalver = Some (pyc (Z.to_N y) (Z.to_N m) (w_bid v) T).
+Proof.
+  intros v y m T Hy Hm Ht.
+  rewrite (v1_pycalver_render_Z v y m Hy Hm) by (rewrite Ht; apply has_key_ltext).
+  rewrite Ht, pyc_text. unfold zdec. destruct T as [[]|]; reflexivity.
+Qed.
+
+(* ------------------------------------------------------------------ (B3) the calendar step *)
+Lemma is_cal_gt_pyc y m bid T date : 1 <= m <= 12 ->
+  is_cal_gt (v1_cal_list (pyc_info (Z.of_N y) (Z.of_N m) bid T)) (v1_cal_of date) = CV.old_in_future y m (cal_of date).
+Proof.
+  intros Hm. unfold is_cal_gt, v1_cal_list, v1_cal_of, pyc_info, CV.old_in_future.
+  cbn [w_year w_quarter w_month w_dom w_doy w_iso_week w_us_week cal_pairs zlist_lt].
+  rewrite CV.quarter_of_month. rewrite CV.quarter_cmp; [reflexivity|apply CV.month_range|lia].
+Qed.
+
+(* the current record: build and tag of the old version; year and month of the old version when it lies in
+   the future of the date, of the date otherwise *)
+Lemma pyc_cur_fields fl y m bid T date : f_pin_date fl = false -> 1 <= m <= 12 ->
+  let cur := v1_cur (pyc_info (Z.of_N y) (Z.of_N m) bid T) fl date in
+  w_bid cur = bid /\ w_tag cur = ST.ltext T
+  /\ (if CV.old_in_future y m (cal_of date)
+      then w_year cur = Some (Z.of_N y) /\ w_month cur = Some (Z.of_N m)
+      else w_year cur = Some (year_y (cal_of date)) /\ w_month cur = Some (month (cal_of date))).
+Proof.
+  intros Hpd Hm cur.
+  destruct (v1_cur_rest (pyc_info (Z.of_N y) (Z.of_N m) bid T) fl date) as (_ & _ & _ & E4 & E5).
+  split; [exact E4|]. split; [exact E5|].
+  unfold cur, v1_cur. rewrite Hpd. cbv zeta. rewrite (is_cal_gt_pyc y m bid T date Hm).
+  destruct (CV.old_in_future y m (cal_of date)); split; reflexivity.
+Qed.
+
+(* ------------------------------------------------------------------ (B4) lexid.next_id, as the legacy engine uses it *)
+(* the closed form (Model/Lexid.v): a string of nines only overflows; otherwise the number + 1, padded to the
+   old width, unless its first character changed (a carry into the first digit), then (number + 1) * 11 *)
+Lemma next_id_closed s :
+  next_id s = if all_nines s then None
+              else let m := undec s + 1 in
+                   if hd_eqb s (pad (length s) m) then Some (pad (length s) m) else Some (dec (m * 11)).
+Proof. unfold next_id. rewrite count_nines_full. reflexivity. Qed.
+
+(* the v2 engine widens a build below 1000 first (Model/Lexid.v bump_bid); the legacy engine does not.
+   They agree exactly from 1000 on *)
+Lemma next_id_is_bump_bid bid : 1000 <= undec bid -> bump_bid bid = next_id bid.
+Proof. intros H. unfold bump_bid. destruct (N.ltb_spec (undec bid) 1000); [lia|reflexivity]. Qed.
+Lemma bump_bid_small bid : undec bid < 1000 -> bump_bid bid = next_id (dec (undec bid + 1000)).
+Proof. intros H. unfold bump_bid. destruct (N.ltb_spec (undec bid) 1000); [reflexivity|lia]. Qed.
+
+Example next_id_samples :
+  next_id [48;48;52;50] = Some [48;48;52;51]                 (* 0042 -> 0043 *)
+  /\ bump_bid [48;48;52;50] = Some [49;48;52;51]             (* the v2 engine: 0042 -> 1043 *)
+  /\ next_id [48;48;48;48] = Some [48;48;48;49]              (* 0000 -> 0001 *)
+  /\ next_id [48;57;57;57] = Some [49;49;48;48;48]           (* 0999 -> 11000 *)
+  /\ next_id [49;57;57;57] = Some [50;50;48;48;48]           (* 1999 -> 22000 *)
+  /\ next_id [56;57;57;57] = Some [57;57;48;48;48]           (* 8999 -> 99000 *)
+  /\ next_id [57;57;57;57] = None                            (* 9999 -> OverflowError *)
+  /\ next_id [48;48;48;52;50] = Some [48;48;48;52;51].       (* 00042 -> 00043 *)
+Proof. vm_compute. repeat split; reflexivity. Qed.
+
+(* what the proofs below need: the build number grows, the string stays a digit string of at least the old length *)
+Lemma next_id_facts bid b' : all_digits bid = true -> (4 <= length bid)%nat -> next_id bid = Some b' ->
+  undec bid < undec b' /\ all_digits b' = true /\ (4 <= length b')%nat /\ (length bid <= length b')%nat /\ b' <> [] /\ bid <> [].
+Proof.
+  intros Hd Hl Hb. destruct (next_id_spec bid b' Hd Hb) as (H1 & H2 & _ & H4 & H5).
+  repeat split; try assumption; try lia. intros ->. cbn [length] in Hl. lia.
+Qed.
+
+Local Opaque next_id bump_bid.
+
+(* ------------------------------------------------------------------ (B5) v1version.incr *)
+(* --tag as in Proofs/CalverTagE2E.v: None = not given, Some T = --tag <name of T>; --tag-num and --pin-date off;
+   --major --minor --patch --pin-increments are FREE: this pattern shows none of these parts and
+   cli._validate_flags only looks at new style patterns *)
+Definition pyc_flags (fl : flags) (ft : option (option ST.ptag)) : Prop :=
+  f_tag fl = option_map ST.ltext ft /\ f_tag_num fl = false /\ f_pin_date fl = false.
+(* the tag is carried over unless --tag is given *)
+Definition next_tag (ft : option (option ST.ptag)) (T : vtag) : vtag := match ft with Some T' => T' | None => T end.
+
+(* the calendar part moves to the month of the date unless the old version lies in the future *)
+Definition pyc_next (y m : N) (b' : list N) (T' : vtag) (date : Z) : list N :=
+  let c := cal_of date in
+  if CV.old_in_future y m c then pyc y m b' T' else pyc (Z.to_N (year_y c)) (Z.to_N (month c)) b' T'.
+
+Lemma pyc_next_cvt y m b' T' date : pyc_next y m b' T' date = CT.cvt_next y m b' (CT.of_flag T') date.
+Proof. reflexivity. Qed.
+
+Lemma pyc_next_shape y m b' T' date : 1000 <= y <= 9999 -> 1 <= m <= 12 -> (0 <= date <= MAX_ORD)%Z ->
+  exists y' m', pyc_next y m b' T' date = pyc y' m' b' T' /\ 1000 <= y' <= 9999 /\ 1 <= m' <= 12
+                /\ y * 100 + m <= y' * 100 + m'
+                /\ (y' = y /\ m' = m \/ y' = Z.to_N (year_y (cal_of date)) /\ m' = Z.to_N (month (cal_of date))).
+Proof. intros Hy Hm Hdate. rewrite pyc_next_cvt. exact (CT.cvt_next_shape y m b' (CT.of_flag T') date Hy Hm Hdate). Qed.
+
+(* two such texts with different build numbers differ *)
+Lemma pyc_differs y m bid T y' m' b' T' :
+  m <= 12 -> all_digits bid = true -> bid <> [] -> m' <= 12 -> all_digits b' = true -> b' <> [] -> undec bid < undec b' ->
+  eqb_str (pyc y' m' b' T') (pyc y m bid T) = false.
+Proof.
+  intros Hm Hd Hne Hm' Hd' Hne' Hlt.
+  destruct (eqb_str (pyc y' m' b' T') (pyc y m bid T)) eqn:Q; [|reflexivity].
+  exfalso. apply eqb_str_true in Q. unfold pyc in Q. apply CT.cvt_inj_bid in Q; try assumption. lia.
+Qed.
+
+Theorem pyc_incr : forall date fl ft y m bid b' T,
+  1000 <= y <= 9999 -> 1 <= m <= 12 -> all_digits bid = true -> (4 <= length bid)%nat ->
+  pyc_flags fl ft -> next_id bid = Some b' ->
+  v1_incr (pyc y m bid T) P_pycalver fl date = INew (pyc_next y m b' (next_tag ft T) date).
+Proof.
+  intros date fl ft y m bid b' T Hy Hm Hd Hl (Hft & Htn & Hpd) Hb.
+  destruct (next_id_facts bid b' Hd Hl Hb) as (Hlt & Hd' & Hl' & _ & Hne' & Hne).
+  rewrite (v1_incr_eq _ _ fl date _ (pyc_parse y m bid T Hy Hm Hd Hl)).
+  destruct (pyc_cur_fields fl y m bid T date Hpd Hm) as (Eb & Et & Ec).
+  set (cur := v1_cur (pyc_info (Z.of_N y) (Z.of_N m) bid T) fl date) in *.
+  rewrite Eb, Hb, Htn.
+  destruct (step_fields fl ft cur b' Hft) as (S1 & S2 & S3 & S4).
+  assert (S5 : w_tag (v1_step fl cur b') = ST.ltext (next_tag ft T)).
+  { rewrite S4. destruct ft as [T'|]; [reflexivity|exact Et]. }
+  pose proof (CV.month_range date) as HM.
+  unfold pyc_next. cbv zeta. destruct (CV.old_in_future y m (cal_of date)); destruct Ec as [Ey Em].
+  - rewrite (pyc_render (v1_step fl cur b') (Z.of_N y) (Z.of_N m) (next_tag ft T)
+               ltac:(rewrite S1; exact Ey) ltac:(rewrite S2; exact Em) S5).
+    rewrite S3, !N2Z.id. rewrite pyc_differs by (assumption || lia). reflexivity.
+  - rewrite (pyc_render (v1_step fl cur b') (year_y (cal_of date)) (month (cal_of date)) (next_tag ft T)
+               ltac:(rewrite S1; exact Ey) ltac:(rewrite S2; exact Em) S5).
+    rewrite S3. rewrite pyc_differs by (assumption || lia). reflexivity.
+Qed.
+
+(* a build of nines only: lexid raises OverflowError, incr crashes *)
+Theorem pyc_incr_overflow : forall date fl ft y m bid T,
+  1000 <= y <= 9999 -> 1 <= m <= 12 -> all_digits bid = true -> (4 <= length bid)%nat ->
+  pyc_flags fl ft -> next_id bid = None ->
+  v1_incr (pyc y m bid T) P_pycalver fl date = ICrash.
+Proof.
+  intros date fl ft y m bid T Hy Hm Hd Hl (Hft & Htn & Hpd) Hb.
+  rewrite (v1_incr_eq _ _ fl date _ (pyc_parse y m bid T Hy Hm Hd Hl)).
+  destruct (pyc_cur_fields fl y m bid T date Hpd Hm) as (Eb & _).
+  rewrite Eb, Hb. reflexivity.
+Qed.
+
+(* ------------------------------------------------------------------ (B6) the new version is greater, whatever the tags *)
+Theorem pyc_result_greater : forall date y m bid b' T T',
+  1 <= m <= 12 -> all_digits bid = true -> bid <> [] -> all_digits b' = true -> b' <> [] -> undec bid < undec b' ->
+  ver_lt (pyc y m bid T) (pyc_next y m b' T' date) = true.
+Proof.
+  intros date y m bid b' T T' Hm Hd Hne Hd' Hne' Hlt.
+  assert (L2 : N.compare (undec bid) (undec b') = Lt) by (apply N.compare_lt_iff; exact Hlt).
+  unfold pyc_next, pyc. cbv zeta.
+  destruct (CV.old_in_future y m (cal_of date)) eqn:E.
+  - apply CT.ver_lt_cvt_release; try assumption; try lia.
+    cbn [cmp_list]. rewrite N.compare_refl, L2. reflexivity.
+  - pose proof (CV.month_range date) as HM.
+    destruct (CV.not_future_ge y m (cal_of date) E HM ltac:(lia)) as [_ G2].
+    apply CT.ver_lt_cvt_release; try assumption; try lia.
+    cbn [cmp_list].
+    destruct (N.compare_spec (y * 100 + m) (Z.to_N (year_y (cal_of date)) * 100 + Z.to_N (month (cal_of date))))
+      as [_|_|G]; [rewrite L2; reflexivity|reflexivity|exfalso; lia].
+Qed.
+
+(* the PEP 440 form: no v, year and month glued, the build number without leading zeros, the short tag with number 0 *)
+Definition pep_suffix (T : vtag) : list N :=
+  match T with
+  | None => []
+  | Some ST.Pa => [97;48] | Some ST.Pb => [98;48] | Some ST.Prc => [114;99;48]
+  | Some ST.Ppost => [46;112;111;115;116;48] | Some ST.Pdev => [46;100;101;118;48]
+  end.
+Theorem to_pep440_pyc : forall y m bid T, m <= 12 -> all_digits bid = true -> bid <> [] ->
+  to_pep440 (pyc y m bid T) = dotted [y * 100 + m; undec bid] ++ pep_suffix T.
+Proof.
+  intros y m bid T Hm Hd Hne. unfold pyc. rewrite (CT.to_pep440_cvt y m bid _ Hm Hd Hne), CT.pep_text_eq.
+  destruct T as [[]|]; reflexivity.
+Qed.
+
+(* ------------------------------------------------------------------ (B7) the command *)
+Lemma pyc_gate today date y m bid b' T T' :
+  1000 <= y <= 9999 -> 1 <= m <= 12 -> all_digits bid = true -> (4 <= length bid)%nat ->
+  (0 <= date <= MAX_ORD)%Z -> next_id bid = Some b' ->
+  is_valid_version today P_pycalver (pyc y m bid T) (pyc_next y m b' T' date) = GateOk.
+Proof.
+  intros Hy Hm Hd Hl Hdate Hb.
+  destruct (next_id_facts bid b' Hd Hl Hb) as (Hlt & Hd' & Hl' & _ & Hne' & Hne).
+  pose proof (pyc_result_greater date y m bid b' T T' Hm Hd Hne Hd' Hne' Hlt) as Hv.
+  unfold is_valid_version. rewrite old_style_pycalver.
+  rewrite ver_lt_iff_not_le in Hv. apply negb_true_iff in Hv. rewrite Hv.
+  destruct (pyc_next_shape y m b' T' date Hy Hm Hdate) as (y' & m' & En & Hy' & Hm' & _).
+  rewrite En, (pyc_parse y' m' b' T' Hy' Hm' Hd' Hl'). reflexivity.
+Qed.
+
+Theorem v1_pycalver_test_cmd : forall today date fl ft y m bid b' T,
+  1000 <= y <= 9999 -> 1 <= m <= 12 -> all_digits bid = true -> (4 <= length bid)%nat ->
+  (0 <= date <= MAX_ORD)%Z -> pyc_flags fl ft -> next_id bid = Some b' ->
+  let new := pyc_next y m b' (next_tag ft T) date in
+  test_cmd today (pyc y m bid T) P_pycalver fl (Some (Some date)) None = Exit0 new (to_pep440 new)
+  /\ ver_lt (pyc y m bid T) new = true.
+Proof.
+  intros today date fl ft y m bid b' T Hy Hm Hd Hl Hdate Hfl Hb new.
+  destruct (next_id_facts bid b' Hd Hl Hb) as (Hlt & Hd' & Hl' & _ & Hne' & Hne).
+  split; [|exact (pyc_result_greater date y m bid b' T (next_tag ft T) Hm Hd Hne Hd' Hne' Hlt)].
+  pose proof Hfl as (Hft & Htn & Hpd).
+  unfold test_cmd. rewrite Hft, ST.validate_tag_ok. cbn [negb].
+  rewrite validate_flags_pycalver. cbn [negb]. rewrite Hpd. cbn [andb].
+  unfold incr_dispatch. rewrite v1part_pycalver.
+  rewrite (pyc_incr date fl ft y m bid b' T Hy Hm Hd Hl Hfl Hb).
+  rewrite (pyc_gate today date y m bid b' T (next_tag ft T) Hy Hm Hd Hl Hdate Hb). reflexivity.
+Qed.
+
+(* without --date the date is TODAY *)
+Corollary v1_pycalver_test_cmd_today : forall today fl ft y m bid b' T,
+  1000 <= y <= 9999 -> 1 <= m <= 12 -> all_digits bid = true -> (4 <= length bid)%nat ->
+  (0 <= today <= MAX_ORD)%Z -> pyc_flags fl ft -> next_id bid = Some b' ->
+  let new := pyc_next y m b' (next_tag ft T) today in
+  test_cmd today (pyc y m bid T) P_pycalver fl None None = Exit0 new (to_pep440 new).
+Proof.
+  intros today fl ft y m bid b' T Hy Hm Hd Hl Hdate Hfl Hb new.
+  pose proof Hfl as (Hft & Htn & Hpd).
+  unfold test_cmd. rewrite Hft, ST.validate_tag_ok. cbn [negb].
+  rewrite validate_flags_pycalver. cbn [negb andb].
+  unfold incr_dispatch. rewrite v1part_pycalver.
+  rewrite (pyc_incr today fl ft y m bid b' T Hy Hm Hd Hl Hfl Hb).
+  rewrite (pyc_gate today today y m bid b' T (next_tag ft T) Hy Hm Hd Hl Hdate Hb). reflexivity.
+Qed.
+
+(* the only failure inside this family: the build cannot be advanced *)
+Theorem v1_pycalver_overflow : forall today date fl ft y m bid T,
+  1000 <= y <= 9999 -> 1 <= m <= 12 -> all_digits bid = true -> (4 <= length bid)%nat ->
+  pyc_flags fl ft -> all_nines bid = true ->
+  test_cmd today (pyc y m bid T) P_pycalver fl (Some (Some date)) None = ExitErr.
+Proof.
+  intros today date fl ft y m bid T Hy Hm Hd Hl Hfl H9.
+  pose proof Hfl as (Hft & Htn & Hpd).
+  assert (Hb : next_id bid = None) by (apply next_id_none_iff; assumption).
+  unfold test_cmd. rewrite Hft, ST.validate_tag_ok. cbn [negb].
+  rewrite validate_flags_pycalver. cbn [negb]. rewrite Hpd. cbn [andb].
+  unfold incr_dispatch. rewrite v1part_pycalver.
+  rewrite (pyc_incr_overflow date fl ft y m bid T Hy Hm Hd Hl Hfl Hb). reflexivity.
+Qed.
+
+(* --pin-date (only possible without --date: cli._validate_date refuses the pair): the calendar part is kept,
+   whatever TODAY is; the build is advanced all the same *)
+Lemma pyc_cur_pin fl y m bid T date : f_pin_date fl = true ->
+  v1_cur (pyc_info y m bid T) fl date = pyc_info y m bid T.
+Proof.
+  intros Hpd. unfold v1_cur. rewrite Hpd. cbv zeta.
+  destruct (is_cal_gt (v1_cal_list (pyc_info y m bid T)) (v1_cal_list (pyc_info y m bid T))); reflexivity.
+Qed.
+
+Theorem v1_pycalver_pin_date : forall today fl ft y m bid b' T,
+  1000 <= y <= 9999 -> 1 <= m <= 12 -> all_digits bid = true -> (4 <= length bid)%nat ->
+  f_tag fl = option_map ST.ltext ft -> f_tag_num fl = false -> f_pin_date fl = true -> next_id bid = Some b' ->
+  let new := pyc y m b' (next_tag ft T) in
+  test_cmd today (pyc y m bid T) P_pycalver fl None None = Exit0 new (to_pep440 new)
+  /\ ver_lt (pyc y m bid T) new = true
+  /\ forall d, test_cmd today (pyc y m bid T) P_pycalver fl (Some d) None = ExitErr.
+Proof.
+  intros today fl ft y m bid b' T Hy Hm Hd Hl Hft Htn Hpd Hb new.
+  destruct (next_id_facts bid b' Hd Hl Hb) as (Hlt & Hd' & Hl' & _ & Hne' & Hne).
+  assert (Hv : ver_lt (pyc y m bid T) new = true).
+  { unfold new, pyc. apply CT.ver_lt_cvt_release; try assumption; try lia.
+    cbn [cmp_list]. rewrite N.compare_refl. apply N.compare_lt_iff in Hlt. rewrite Hlt. reflexivity. }
+  assert (Hin : v1_incr (pyc y m bid T) P_pycalver fl today = INew new).
+  { rewrite (v1_incr_eq _ _ fl today _ (pyc_parse y m bid T Hy Hm Hd Hl)).
+    rewrite (pyc_cur_pin fl _ _ bid T today Hpd).
+    change (w_bid (pyc_info (Z.of_N y) (Z.of_N m) bid T)) with bid. rewrite Hb, Htn.
+    destruct (step_fields fl ft (pyc_info (Z.of_N y) (Z.of_N m) bid T) b' Hft) as (S1 & S2 & S3 & S4).
+    assert (S5 : w_tag (v1_step fl (pyc_info (Z.of_N y) (Z.of_N m) bid T) b') = ST.ltext (next_tag ft T)).
+    { rewrite S4. destruct ft as [T'|]; reflexivity. }
+    rewrite (pyc_render _ (Z.of_N y) (Z.of_N m) (next_tag ft T) S1 S2 S5).
+    rewrite S3, !N2Z.id. rewrite pyc_differs by (assumption || lia). reflexivity. }
+  assert (Hg : is_valid_version today P_pycalver (pyc y m bid T) new = GateOk).
+  { unfold is_valid_version. rewrite old_style_pycalver.
+    pose proof Hv as Hv'. rewrite ver_lt_iff_not_le in Hv'. apply negb_true_iff in Hv'. rewrite Hv'.
+    unfold new. rewrite (pyc_parse y m b' (next_tag ft T) Hy Hm Hd' Hl'). reflexivity. }
+  split; [|split; [exact Hv|]].
+  - unfold test_cmd. rewrite Hft, ST.validate_tag_ok. cbn [negb].
+    rewrite validate_flags_pycalver. cbn [negb andb].
+    unfold incr_dispatch. rewrite v1part_pycalver, Hin, Hg. reflexivity.
+  - intros d. unfold test_cmd. rewrite Hft, ST.validate_tag_ok. cbn [negb].
+    rewrite validate_flags_pycalver. cbn [negb]. rewrite Hpd. reflexivity.
+Qed.
+
+(* every value cli._validate_release_tag lets through is one of the six names *)
+Theorem pyc_flags_complete : forall fl, f_tag_num fl = false -> f_pin_date fl = false ->
+  validate_release_tag (f_tag fl) = true -> exists ft, pyc_flags fl ft.
+Proof.
+  intros fl H1 H2 H3. destruct (ST.valid_tag_abstract fl H3) as [ft Hft]. exists ft. repeat split; assumption.
+Qed.
+
+(* ------------------------------------------------------------------ the whole statement in one piece *)
+Theorem v1_pycalver_e2e : forall today date fl ft y m bid T,
+  1000 <= y <= 9999 -> 1 <= m <= 12 -> all_digits bid = true -> (4 <= length bid)%nat ->
+  (0 <= date <= MAX_ORD)%Z -> pyc_flags fl ft ->
+  let T' := next_tag ft T in
+  (* success or failure is decided by the build alone *)
+  test_cmd today (pyc y m bid T) P_pycalver fl (Some (Some date)) None =
+    match next_id bid with
+    | Some b' => Exit0 (pyc_next y m b' T' date) (to_pep440 (pyc_next y m b' T' date))
+    | None => ExitErr
+    end
+  /\ (next_id bid = None <-> all_nines bid = true)
+  /\ forall b', next_id bid = Some b' ->
+       let new := pyc_next y m b' T' date in
+       v1_parse_version_info (pyc y m bid T) P_pycalver = POk (pyc_info (Z.of_N y) (Z.of_N m) bid T)
+       /\ v1_format_version (pyc_info (Z.of_N y) (Z.of_N m) bid T) P_pycalver = Some (pyc y m bid T)
+       /\ v1_incr (pyc y m bid T) P_pycalver fl date = INew new
+       /\ ver_lt (pyc y m bid T) new = true
+       /\ undec bid < undec b' /\ all_digits b' = true /\ (length bid <= length b')%nat
+       /\ exists y' m', new = pyc y' m' b' T' /\ 1000 <= y' <= 9999 /\ 1 <= m' <= 12 /\ y * 100 + m <= y' * 100 + m'
+            /\ (y' = y /\ m' = m \/ y' = Z.to_N (year_y (cal_of date)) /\ m' = Z.to_N (month (cal_of date)))
+            /\ to_pep440 new = dotted [y' * 100 + m'; undec b'] ++ pep_suffix T'.
+Proof.
+  intros today date fl ft y m bid T Hy Hm Hd Hl Hdate Hfl T'.
+  split; [|split].
+  - destruct (next_id bid) as [b'|] eqn:Hb.
+    + exact (proj1 (v1_pycalver_test_cmd today date fl ft y m bid b' T Hy Hm Hd Hl Hdate Hfl Hb)).
+    + apply (v1_pycalver_overflow today date fl ft y m bid T Hy Hm Hd Hl Hfl).
+      apply next_id_none_iff; assumption.
+  - apply next_id_none_iff. exact Hd.
+  - intros b' Hb new.
+    destruct (next_id_facts bid b' Hd Hl Hb) as (Hlt & Hd' & Hl' & Hll & Hne' & Hne).
+    split; [exact (pyc_parse y m bid T Hy Hm Hd Hl)|].
+    split.
+    { rewrite (pyc_render (pyc_info (Z.of_N y) (Z.of_N m) bid T) (Z.of_N y) (Z.of_N m) T eq_refl eq_refl eq_refl).
+      cbn [pyc_info w_bid]. rewrite !N2Z.id. reflexivity. }
+    split; [exact (pyc_incr date fl ft y m bid b' T Hy Hm Hd Hl Hfl Hb)|].
+    split; [exact (pyc_result_greater date y m bid b' T T' Hm Hd Hne Hd' Hne' Hlt)|].
+    split; [exact Hlt|]. split; [exact Hd'|]. split; [exact Hll|].
+    destruct (pyc_next_shape y m b' T' date Hy Hm Hdate) as (y' & m' & En & Hy' & Hm' & Hge & Hcase).
+    exists y', m'. split; [exact En|]. split; [exact Hy'|]. split; [exact Hm'|]. split; [exact Hge|]. split; [exact Hcase|].
+    unfold new. rewrite En. apply to_pep440_pyc; (assumption || lia).
+Qed.
+
+(* the families of the task, spelled out *)
+(* no flag at all: the tag is carried over *)
+Corollary v1_pycalver_noflag : forall today date y m bid b' T,
+  1000 <= y <= 9999 -> 1 <= m <= 12 -> all_digits bid = true -> (4 <= length bid)%nat ->
+  (0 <= date <= MAX_ORD)%Z -> next_id bid = Some b' ->
+  let new := pyc_next y m b' T date in
+  test_cmd today (pyc y m bid T) P_pycalver (mkflags false false false None false false false) (Some (Some date)) None
+    = Exit0 new (to_pep440 new)
+  /\ ver_lt (pyc y m bid T) new = true.
+Proof.
+  intros today date y m bid b' T Hy Hm Hd Hl Hdate Hb.
+  exact (v1_pycalver_test_cmd today date (mkflags false false false None false false false) None y m bid b' T
+           Hy Hm Hd Hl Hdate (conj eq_refl (conj eq_refl eq_refl)) Hb).
+Qed.
+(* --tag T for each of the six values: the new tag is T whatever the old one was *)
+Corollary v1_pycalver_tag : forall today date Tf y m bid b' T,
+  1000 <= y <= 9999 -> 1 <= m <= 12 -> all_digits bid = true -> (4 <= length bid)%nat ->
+  (0 <= date <= MAX_ORD)%Z -> next_id bid = Some b' ->
+  let new := pyc_next y m b' Tf date in
+  test_cmd today (pyc y m bid T) P_pycalver (mkflags false false false (Some (ST.ltext Tf)) false false false)
+    (Some (Some date)) None = Exit0 new (to_pep440 new)
+  /\ ver_lt (pyc y m bid T) new = true.
+Proof.
+  intros today date Tf y m bid b' T Hy Hm Hd Hl Hdate Hb.
+  exact (v1_pycalver_test_cmd today date (mkflags false false false (Some (ST.ltext Tf)) false false false) (Some Tf)
+           y m bid b' T Hy Hm Hd Hl Hdate (conj eq_refl (conj eq_refl eq_refl)) Hb).
+Qed.
+
+(* ------------------------------------------------------------------ the model itself on the instances of the text *)
+Definition noflags : flags := mkflags false false false None false false false.
+Definition res_is (r : cli_res) (new pep : list N) : bool := eqb_cli_res r (Exit0 new pep).
+(* today = 738000 (2021-07-30), date = 737500 (2020-03-17) *)
+Example v1_model_samples :
+  (* v202001.0042-beta -> v202003.0043-beta, 202003.43b0 *)
+  res_is (test_cmd 738000 (pyc 2020 1 [48;48;52;50] (Some ST.Pb)) P_pycalver noflags (Some (Some 737500%Z)) None)
+         (pyc 2020 3 [48;48;52;51] (Some ST.Pb)) [50;48;50;48;48;51;46;52;51;98;48] = true
+  (* v202001.0999 -> v202003.11000 *)
+  /\ res_is (test_cmd 738000 (pyc 2020 1 [48;57;57;57] None) P_pycalver noflags (Some (Some 737500%Z)) None)
+            (pyc 2020 3 [49;49;48;48;48] None) [50;48;50;48;48;51;46;49;49;48;48;48] = true
+  (* v202001.9999 -> error *)
+  /\ test_cmd 738000 (pyc 2020 1 [57;57;57;57] None) P_pycalver noflags (Some (Some 737500%Z)) None = ExitErr
+  (* a build of three digits is not a version of this pattern *)
+  /\ test_cmd 738000 (pyc 2020 1 [48;52;50] None) P_pycalver noflags (Some (Some 737500%Z)) None = ExitErr
+  (* the old version lies in the future of the date: v202101.1001-post -> v202101.1002-post, 202101.1002.post0 *)
+  /\ res_is (test_cmd 738000 (pyc 2021 1 [49;48;48;49] (Some ST.Ppost)) P_pycalver noflags (Some (Some 737500%Z)) None)
+            (pyc 2021 1 [49;48;48;50] (Some ST.Ppost)) [50;48;50;49;48;49;46;49;48;48;50;46;112;111;115;116;48] = true
+  (* same year, later month: v202012.1001-dev -> v202012.1002-dev *)
+  /\ res_is (test_cmd 738000 (pyc 2020 12 [49;48;48;49] (Some ST.Pdev)) P_pycalver noflags (Some (Some 737500%Z)) None)
+            (pyc 2020 12 [49;48;48;50] (Some ST.Pdev)) [50;48;50;48;49;50;46;49;48;48;50;46;100;101;118;48] = true
+  (* --tag final on a beta, --tag alpha on a final *)
+  /\ res_is (test_cmd 738000 (pyc 2020 1 [49;48;48;49] (Some ST.Pb)) P_pycalver
+               (mkflags false false false (Some s_final) false false false) (Some (Some 737500%Z)) None)
+            (pyc 2020 3 [49;48;48;50] None) [50;48;50;48;48;51;46;49;48;48;50] = true
+  /\ res_is (test_cmd 738000 (pyc 2020 1 [49;48;48;49] None) P_pycalver
+               (mkflags false false false (Some (ST.ltext (Some ST.Pa))) false false false) (Some (Some 737500%Z)) None)
+            (pyc 2020 3 [49;48;48;50] (Some ST.Pa)) [50;48;50;48;48;51;46;49;48;48;50;97;48] = true
+  (* {semver}: 1.2.3 --major --minor -> 2.1.0 ; no flag -> error *)
+  /\ res_is (test_cmd 738000 (dotted [1; 2; 3]) P_semver (mkflags true true false None false false false) None None)
+            (dotted [2; 1; 0]) (dotted [2; 1; 0]) = true
+  /\ test_cmd 738000 (dotted [1; 2; 3]) P_semver noflags None None = ExitErr.
+Proof. vm_compute. repeat split; reflexivity. Qed.
+
+Print Assumptions v1_incr_eq0.
+Print Assumptions v1_semver_incr.
+Print Assumptions v1_semver_test_cmd.
+Print Assumptions v1_semver_e2e.
+Print Assumptions v1_semver_major.
+Print Assumptions v1_semver_minor.
+Print Assumptions v1_semver_patch.
+Print Assumptions v1_semver_noflag.
+Print Assumptions pyc_parse.
+Print Assumptions pyc_render.
+Print Assumptions pyc_incr.
+Print Assumptions pyc_incr_overflow.
+Print Assumptions pyc_result_greater.
+Print Assumptions to_pep440_pyc.
+Print Assumptions v1_pycalver_test_cmd.
+Print Assumptions v1_pycalver_test_cmd_today.
+Print Assumptions v1_pycalver_overflow.
+Print Assumptions v1_pycalver_pin_date.
+Print Assumptions pyc_flags_complete.
+Print Assumptions v1_pycalver_e2e.
+Print Assumptions v1_pycalver_noflag.
+Print Assumptions v1_pycalver_tag.
+Print Assumptions v1_model_samples.
